@@ -490,3 +490,15 @@ proof fn lemma_float_norm_grammar(cs: Seq<char>)
         }
     }
 }
+
+// ---- which text a float gets (src/zmij_format.rs, whole functions) ----
+uninterp spec fn fl_nan(f: f64) -> bool;
+uninterp spec fn fl_inf(f: f64) -> bool;
+uninterp spec fn fl_pos(f: f64) -> bool;
+/// the shortest round-trip digits the external formatter (crate zmij) produces for a finite float
+uninterp spec fn zmij_text(f: f64) -> Seq<char>;
+spec fn float_text(f: f64) -> Seq<char> {
+    if fl_nan(f) { seq!['.', 'n', 'a', 'n'] }
+    else if fl_inf(f) { if fl_pos(f) { seq!['.', 'i', 'n', 'f'] } else { seq!['-', '.', 'i', 'n', 'f'] } }
+    else { float_norm(zmij_text(f)) }
+}
